@@ -4,6 +4,7 @@ package standard
 
 import (
 	"context"
+	"errors"
 	"fmt"
 
 	apiv1 "github.com/attestantio/go-eth2-client/api/v1"
@@ -21,9 +22,19 @@ func (h *hSubscriber) Subscribe(_ context.Context, _ phase0.Epoch, _ map[phase0.
 	return map[phase0.Slot]map[phase0.CommitteeIndex]*beaconcommitteesubscriber.Subscription{}, nil
 }
 
-type hValidating struct{ hCtlAccounts }
+type hValidating struct {
+	hCtlAccounts
+	failAll bool // the account lookup fails
+	none    bool // no validating accounts
+}
 
 func (h *hValidating) ValidatingAccountsForEpoch(_ context.Context, _ phase0.Epoch) (map[phase0.ValidatorIndex]e2wtypes.Account, error) {
+	if h.failAll {
+		return nil, errors.New("mock accounts failure")
+	}
+	if h.none {
+		return map[phase0.ValidatorIndex]e2wtypes.Account{}, nil
+	}
 	return map[phase0.ValidatorIndex]e2wtypes.Account{1: &vstub.Account{VIndex: 1, Nm: "acc"}}, nil
 }
 
@@ -81,7 +92,15 @@ func VerifC03_ReorgDetection() {
 func VerifC03_RefreshAttester() {
 	vstub.SPEChoices = []uint64{2}
 	e := newCtlEnv()
-	e.s.validatingAccountsProvider = &hValidating{}
+	// the validating accounts are available, cannot be obtained, or there are none
+	accounts := &hValidating{}
+	switch vnd.Choose("accounts", 3) {
+	case 1:
+		accounts.failAll = true
+	case 2:
+		accounts.none = true
+	}
+	e.s.validatingAccountsProvider = accounts
 	e.s.beaconCommitteeSubscriber = &hSubscriber{}
 	cur := uint64(e.ct.Cur)
 	vnd.Assume(cur >= 4 && cur < 1<<30)
@@ -120,6 +139,9 @@ func VerifC03_RefreshAttester() {
 		}
 		want := false
 		switch {
+		case accounts.failAll || accounts.none:
+			// nothing can be set up; the withdrawn jobs stay withdrawn
+			vnd.Cover("C03.refresh.accounts-unavailable")
 		case slot > cur:
 			want = hasDuty
 		case slot == cur:
